@@ -1,7 +1,7 @@
 #![allow(non_camel_case_types, non_snake_case, dead_code)]
 #[tarpc::service]
 pub trait Rej51 {
-    async fn a1() -> String;
+    async fn a1() -> i32;
     async fn r#fn(ctx: tarpc::context::Context) -> i32;
 }
 fn main() {}
